@@ -74,9 +74,9 @@ MCCat == MCCat0
 MCPos0 == [r |-> [x \in Repos |-> 2], t |-> [x \in Tags |-> 2], c |-> [x \in MCCids0 |-> 2]]
 MCPos == MCPos0
 
-\* ---- export of the contents (direction A): one line per content, printed on its initial state
+\* ---- export of the contents (direction A): one line per content, printed on the state that has picked it
 IsInitial == pc = "complete" /\ passes = 1 /\ todo = MansOf(content)
 Emit == IsInitial => PrintT(<<"MBT", ToJson([blobs |-> content.blobs, mans |-> content.mans, tags |-> content.tags,
                                               outcome |-> Outcome(content)])>>)
-GenSpec == PInit /\ [][FALSE]_allvars
+GenSpec == PInit /\ [][Choose]_allvars
 =============================================================================
